@@ -341,31 +341,48 @@ func loadView(ctx context.Context, scope *ReferenceScope, tableExpr parser.Query
 			var hfields Header
 			resultSetList := make([]RecordSet, view.RecordLen())
 
-			if err := EvaluateSequentially(ctx, scope, view, func(seqScope *ReferenceScope, rIdx int) error {
-				appliedView, err := Select(ctx, seqScope, subquery.Query)
-				if err != nil {
-					return err
-				}
-
-				if 0 < len(joinTableName.Literal) {
-					if err = appliedView.Header.Update(joinTableName.Literal, nil); err != nil {
+			applyLateral := func(baseView *View, resultSetList []RecordSet) func(seqScope *ReferenceScope, rIdx int) error {
+				return func(seqScope *ReferenceScope, rIdx int) error {
+					appliedView, err := Select(ctx, seqScope, subquery.Query)
+					if err != nil {
 						return err
 					}
-				}
 
-				calcView := NewView()
-				calcView.Header = view.Header.Copy()
-				calcView.RecordSet = RecordSet{view.RecordSet[rIdx].Copy()}
-				if err = joinViews(ctx, scope, calcView, appliedView, join); err != nil {
-					return err
-				}
+					if 0 < len(joinTableName.Literal) {
+						if err = appliedView.Header.Update(joinTableName.Literal, nil); err != nil {
+							return err
+						}
+					}
 
-				if rIdx == 0 {
-					hfields = calcView.Header
+					calcView := NewView()
+					calcView.Header = baseView.Header.Copy()
+					calcView.RecordSet = RecordSet{baseView.RecordSet[rIdx].Copy()}
+					if err = joinViews(ctx, scope, calcView, appliedView, join); err != nil {
+						return err
+					}
+
+					if rIdx == 0 {
+						hfields = calcView.Header
+					}
+					resultSetList[rIdx] = calcView.RecordSet
+					return nil
 				}
-				resultSetList[rIdx] = calcView.RecordSet
-				return nil
-			}); err != nil {
+			}
+
+			if view.RecordLen() < 1 {
+				// There is no row to apply the subquery to. The fields of the result are taken from
+				// the application to a row of nulls, and the result has no records.
+				nulls := make([]value.Primary, view.FieldLen())
+				for i := range nulls {
+					nulls[i] = value.NewNull()
+				}
+				nullView := NewView()
+				nullView.Header = view.Header.Copy()
+				nullView.RecordSet = RecordSet{NewRecord(nulls)}
+				if err := EvaluateSequentially(ctx, scope, nullView, applyLateral(nullView, make([]RecordSet, 1))); err != nil {
+					return nil, err
+				}
+			} else if err := EvaluateSequentially(ctx, scope, view, applyLateral(view, resultSetList)); err != nil {
 				return nil, err
 			}
 
